@@ -18,6 +18,23 @@ def edge_keys():
             (1 << 64), (1 << 128), (1 << 255)]
 
 
+def zero_limb_scalars_sm2(rng):
+    """scalars below n with all-zero interior / low 64-bit limbs"""
+    l = lambda: rng.randrange(1, 1 << 64)
+    top = lambda: rng.randrange(1, N >> 193)
+    return [(top() << 192) | (l() << 128) | l(), (top() << 192) | (l() << 64) | l(), (top() << 192) | l(), (top() << 192) | (l() << 128) | (l() << 64),
+            (l() << 128) | l(), (l() << 64) | l(), l() << 128, 1 << 192, (1 << 192) + 5, l()]
+
+
+def valid_sig_with_t(d, t_, k):
+    """(e, r, s): a VALID signature under d made with nonce k whose verification scalar r + s equals t_"""
+    r = ((1 + d) * t_ - k) % N
+    s_ = (t_ - r) % N
+    x1 = E.mul(k, E.G)[0]
+    e = (r - x1) % N
+    return e, r, s_
+
+
 def small_x_points():
     """curve points with a tiny x (so that x + p < 2^256 is an out-of-range encoding of the same residue)"""
     out = []
@@ -85,6 +102,20 @@ def gen_c03(tier, rng):
             yield ('fixed-nonce-sign', 'sm2_sign %s %s %s %s' % (H(d), idh, hx(msg), k), None)
             if rng.random() < 0.4:
                 yield ('sign-then-lib-verify', 'sm2_sv %s %s %s %s' % (H(d), idh, hx(msg), good_k(rng)), None)
+    # valid signatures whose verification scalar t = r + s has all-zero 64-bit limbs ([t]P_A through the 4-bit window multiplication)
+    d_ = rscalar(rng, 2, N - 1)
+    for t_ in zero_limb_scalars_sm2(rng):
+        k_ = int(good_k(rng), 16)
+        e_, r_, s_ = valid_sig_with_t(d_, t_, k_)
+        if r_ and s_ and (r_ + k_) % N:
+            yield ('valid-with-zero-limb-t', 'sm2_verify_raw %s %s %s%s' % (E.enc(E.mul(d_, E.G)), H(e_), H(r_), H(s_)), 'OK')
+            yield ('sign-raw-zero-limb-t', 'sm2_sign_raw %s %s %s' % (H(d_), H(e_), H(k_)), None)
+    # one key, different IDs one after another on ONE thread (Z_A depends on the ID, not only on the key)
+    kq = [good_k(rng) for _ in range(4)]
+    yield ('same-key-different-ids-history', 'seq sm2_sign %s %s %s %s ; %s %s %s %s ; %s default %s %s ; %s %s %s %s' % (
+        H(d_), hx(b'alice'), hx(b'm'), kq[0], H(d_), hx(b'bob'), hx(b'm'), kq[1], H(d_), hx(b'm'), kq[2], H(d_), hx(b'alice'), hx(b'm'), kq[3]), None)
+    pk_ = E.enc(E.mul(d_, E.G))
+    yield ('same-key-different-ids-history', 'seq sm2_za %s %s ; %s %s ; default %s ; %s %s' % (hx(b'alice'), pk_, hx(b'bob'), pk_, pk_, hx(b'alice'), pk_), None)
     # ID too long
     yield ('id-too-long', 'sm2_sign %s %s %s %s' % (H(5), hx(b'y' * 8192), hx(b'm'), good_k(rng)), None)
     # out-of-range candidates are skipped, then a good one
@@ -179,6 +210,61 @@ def gen_c04(tier, rng):
         e = (r - x1) % N
         if r and (r + s_) % N:
             yield ('valid-with-equal-summands', 'sm2_verify_raw %s %s %s%s' % (E.enc(E.mul(d, E.G)), H(e), H(r), H(s_)), 'OK')
+    # a VALID (r, s0) with s0 (resp. r0) so small that s0 + n (r0 + n) still fits in 32 bytes: the out-of-range twin must be rejected
+    for _ in range(4 if tier == 'thorough' else 2):
+        d = rscalar(rng, 2, N - 1)
+        Pk = E.mul(d, E.G)
+        small = rng.randrange(1, (1 << 256) - N)
+        other = rscalar(rng)
+        for which in ('s', 'r'):
+            if which == 's':
+                s0, t_ = small, (small + other) % N        # r = t - s0
+                r0 = (t_ - s0) % N
+            else:
+                r0, s0 = small, other
+                t_ = (r0 + s0) % N
+            if not t_ or not r0 or not s0:
+                continue
+            X = E.add(E.mul(s0, E.G), E.mul(t_, Pk))
+            if X is None:
+                continue
+            e = (r0 - X[0]) % N
+            yield ('valid-with-small-' + which, 'sm2_verify_raw %s %s %s%s' % (E.enc(Pk), H(e), H(r0), H(s0)), 'OK')
+            if which == 's':
+                yield ('s-plus-n-twin', 'sm2_verify_raw %s %s %s%s' % (E.enc(Pk), H(e), H(r0), H(s0 + N)), 'ERR')
+                yield ('s-plus-n-twin', 'sm2_verify_raw %s %s %s%s' % (E.enc(Pk), H(e), H(r0), 'ff' * 32), 'ERR')
+            else:
+                yield ('r-plus-n-twin', 'sm2_verify_raw %s %s %s%s' % (E.enc(Pk), H(e), H(r0 + N), H(s0)), 'ERR')
+    d_ = rscalar(rng, 2, N - 1)
+    for t_ in zero_limb_scalars_sm2(rng):
+        e_, r_, s_ = valid_sig_with_t(d_, t_, int(good_k(rng), 16))
+        if r_ and s_:
+            yield ('valid-with-zero-limb-t', 'sm2_verify_raw %s %s %s%s' % (E.enc(E.mul(d_, E.G)), H(e_), H(r_), H(s_)), 'OK')
+    # x1 = x([s]G + [t]P) in [n, p): the verifier must reduce it mod n (R = (e + x1) mod n). The public key is CONSTRUCTED so that
+    # the sum is a chosen point Q with x(Q) >= n: P = [t^-1](Q - [s]G) (no discrete logarithm needed)
+    xq = N + rng.randrange(0, P - N)
+    for _ in range(4000):
+        yq = E.lift_x(xq)
+        if yq is not None:
+            break
+        xq = N + rng.randrange(0, P - N)
+    if yq is not None:
+        for _ in range(3 if tier == 'thorough' else 2):
+            s0, t_ = rscalar(rng), rscalar(rng)
+            Pk = E.mul(pow(t_, -1, N), E.add((xq, yq), E.neg(E.mul(s0, E.G))))
+            r0 = (t_ - s0) % N
+            e = (r0 - xq) % N
+            if Pk is not None and r0 and E.add(E.mul(s0, E.G), E.mul(t_, Pk)) == (xq, yq):
+                yield ('valid-with-x1>=n', 'sm2_verify_raw %s %s %s%s' % (E.enc(Pk), H(e), H(r0), H(s0)), 'OK')
+                yield ('x1>=n-unreduced-r-must-fail', 'sm2_verify_raw %s %s %s%s' % (E.enc(Pk), H((e + 1) % N), H(r0), H(s0)), 'ERR')
+    # r + s = n (t = 0 must be rejected): with e = r - x([s]G) the equation would hold under EVERY public key if t = n slipped through
+    for s0 in [1, 2, N - 1] + [rscalar(rng) for _ in range(3 if tier == 'thorough' else 1)]:
+        r0 = (N - s0) % N
+        if not r0:
+            continue
+        e = (r0 - E.mul(s0, E.G)[0]) % N
+        for _ in range(2):
+            yield ('r+s=n', 'sm2_verify_raw %s %s %s%s' % (E.enc(E.mul(rscalar(rng, 1, N - 1), E.G)), H(e), H(r0), H(s0)), 'ERR')
     for idh in ids(rng, tier)[5:]:
         d = rscalar(rng, 1, N - 1)
         yield ('non-ascii-id', 'sm2_sv %s %s %s %s' % (H(d), idh, hx(b'msg'), good_k(rng)), None)
@@ -294,6 +380,17 @@ def gen_c06(tier, rng):
             yield ('bit-flip', base + ' flip %d' % bit, None)
         for ln in (range(0, total) if tier == 'thorough' else [0, 1, 32, 33, 34, 64, 65, 66, 96, 97, 98, total - 1]):
             yield ('truncation', base + ' trunc %d' % ln, None)
+        # two (or all) bytes of C3 / of C2 altered with the SAME mask (folds to zero under XOR)
+        c1len = 33 if comp == '1' else 65
+        c3off = c1len if order == 'c1c3c2' else c1len + mlen
+        c2off = c1len + 32 if order == 'c1c3c2' else c1len
+        for _ in range(6 if tier == 'thorough' else 2):
+            i_, j_ = rng.sample(range(32), 2)
+            yield ('c3-two-bytes-same-mask-lib', base + ' xor %d,%d:%02x' % (c3off + i_, c3off + j_, rng.randrange(1, 256)), None)
+        yield ('c3-all-bytes-same-mask-lib', base + ' xor %s:ff' % ','.join(str(c3off + i_) for i_ in range(32)), None)
+        if mlen >= 2:
+            i_, j_ = rng.sample(range(mlen), 2)
+            yield ('c2-two-bytes-same-mask-lib', base + ' xor %d,%d:%02x' % (c2off + i_, c2off + j_, rng.randrange(1, 256)), None)
         for pb in range(256):
             if tier == 'thorough' or pb < 8 or pb % 32 == 0:
                 yield ('prefix-byte', base + ' prefix %d' % pb, None)
@@ -377,6 +474,20 @@ def gen_c06(tier, rng):
             yield ('c1-x=0-consistent-control', 'sm2_dec %s 04%s%s%s%s 0 c1c3c2' % (H(d_), H(0), H(yy), c3.hex(), c2.hex()), 'OK ' + m_.hex())
             yield ('c1-x=p-consistent', 'sm2_dec %s 04%s%s%s%s 0 c1c3c2' % (H(d_), H(P), H(yy), c3.hex(), c2.hex()), 'ERR')
             yield ('c1-x=p-consistent', 'pk_new 04%s%s' % (H(P), H(yy)), 'ERR')
+    # a consistent ciphertext whose key stream t is ALL ZERO (1-byte message, nonce found with the independent Python code): the
+    # standard's decryption (B4) must refuse it; a conforming encryptor never emits it
+    d_ = rscalar(rng, 1, N - 1)
+    Ppk_ = E.mul(d_, E.G)
+    kk = rscalar(rng, 1, N - 70000)
+    for _t in range(3000):
+        C1_, c3_, c2_ = py_encrypt(Ppk_, b'\x5a', kk)
+        if c2_ == b'\x5a':
+            yield ('decrypt-t-all-zero', 'sm2_dec %s 04%s%s%s%s 0 c1c3c2' % (H(d_), H(C1_[0]), H(C1_[1]), c3_.hex(), c2_.hex()), 'ERR')
+            yield ('decrypt-t-all-zero', 'sm2_dec %s 04%s%s%s%s 0 c1c2c3' % (H(d_), H(C1_[0]), H(C1_[1]), c2_.hex(), c3_.hex()), 'ERR')
+            break
+        kk += 1
+    # the DER form of the ciphertext: a hash field that is not 32 bytes must be refused, not padded
+    yield from asn1_c3_short_cases(rng, rscalar(rng, 1, N - 1), tier)
     # raw garbage
     for ln in list(range(0, 140, 7)):
         yield ('garbage', 'sm2_dec %s %s %s %s' % (H(rscalar(rng, 1, N - 1)), hx(rb(rng, ln)), rng.choice('01'), rng.choice(['c1c2c3', 'c1c3c2'])), None)
@@ -409,6 +520,29 @@ def gen_c11(tier, rng):
     for x, y in pairs:
         op = rng.choice(['u256_add', 'u256_sub', 'u256_mul', 'u256_cmp', 'fp_mont_mul', 'fp_add', 'fp_sub', 'fn_add', 'fn_sub', 'fn_mul'])
         yield ('limb/field-boundary', '%s %s %s' % (op, H(x), H(y)), None)
+    # sums that land exactly on / next to the modulus, differences on / next to zero, operands that differ in ONE limb only
+    for M_, addop, subop in ((N, 'fn_add', 'fn_sub'), (P, 'fp_add', 'fp_sub')):
+        for a in [1, 2, 3, M_ - 1, M_ - 2, (M_ + 1) // 2, M_ // 2, 1 << 255, (1 << 64) - 1, 1 << 64, 1 << 128, 1 << 192] + [rng.randrange(1, M_) for _ in range(6 if tier == 'thorough' else 2)]:
+            if not (0 < a < M_):
+                continue
+            for dlt in (-1, 0, 1):
+                b = M_ - a + dlt
+                if 0 <= b < M_:
+                    yield ('sum-hits-modulus%+d' % dlt, '%s %s %s' % (addop, H(a), H(b)), None)
+                b2 = a + dlt
+                if 0 <= b2 < M_:
+                    yield ('difference-hits-zero%+d' % dlt, '%s %s %s' % (subop, H(a), H(b2)), None)
+        # values within 2^64 of the modulus (upper three limbs equal to the modulus'): the reduction test must look at limb 0
+        for j in (1, 2, 3, 1 << 20, (1 << 63), (1 << 64) - 1):
+            for a, b in ((M_ - j, 0), (M_ - j - 1, 1), ((M_ - j) // 2, (M_ - j) - (M_ - j) // 2)):
+                if 0 <= a < M_ and 0 <= b < M_:
+                    yield ('sum-just-below-modulus', '%s %s %s' % (addop, H(a), H(b)), None)
+    for k_ in range(4):
+        base = rng.getrandbits(256) % P
+        for dl in (1, (1 << 63)):
+            oth = base ^ (dl << (64 * k_))
+            yield ('cmp-differs-in-one-limb', 'u256_cmp %s %s' % (H(base), H(oth)), None)
+            yield ('cmp-differs-in-one-limb', 'u256_cmp %s %s' % (H(oth), H(base)), None)
     for x in pool[:: (1 if tier == 'thorough' else 3)]:
         for op in ('fp_neg', 'fp_double', 'fp_triple', 'fp_div2', 'fp_sqr', 'fp_to_mont', 'fp_from_mont'):
             yield ('field-unary', '%s %s' % (op, H(x)), None)
@@ -435,7 +569,18 @@ def gen_c11(tier, rng):
         Bp = rng.choice(pts)
         cases = [('add-generic', A, Bp, z1, z2), ('add-equal-same-Z', A, A, z1, z1), ('add-equal-different-Z', A, A, z1, z2),
                  ('add-opposite', A, E.neg(A), z1, z2), ('add-inf-left', None, A, 1, z2), ('add-inf-right', A, None, z1, 1),
-                 ('add-inf-inf', None, None, 1, 1), ('add-affine-Z=1', A, Bp, 1, 1)]
+                 ('add-inf-inf', None, None, 1, 1), ('add-affine-Z=1', A, Bp, 1, 1),
+                 # the same point in two representations, one of them affine (mixed-addition fast paths), both orders; opposite too
+                 ('add-equal-rhs-affine', A, A, z1, 1), ('add-equal-lhs-affine', A, A, 1, z2), ('add-equal-both-affine', A, A, 1, 1),
+                 ('add-opposite-rhs-affine', A, E.neg(A), z1, 1), ('add-generic-rhs-affine', A, Bp, z1, 1), ('add-generic-lhs-affine', A, Bp, 1, z2)]
+        # representations whose stored Z LIMBS are a small integer (Z = j * R^-1: limbs [j,0,0,0], NOT the field element one) and Z = -1
+        rinv = pow(E.R, -1, P)
+        for zs in (rinv, 2 * rinv % P, P - 1, (1 << 64) * rinv % P):
+            yield ('special-Z-representation', 'pt_bytes %s %s' % (E.jac(A, zs), rng.choice('01')), None)
+            yield ('special-Z-representation', 'pt_valid %s' % E.jac(A, zs), None)
+            yield ('special-Z-representation', 'pt_add %s %s' % (E.jac(A, zs), E.jac(Bp, z2)), None)
+            yield ('special-Z-representation', 'pt_dbl %s' % E.jac(A, zs), None)
+            yield ('special-Z-representation', 'pt_mul %s %s' % (E.jac(A, zs), H(rng.getrandbits(64))), None)
         # (X, Y, Z) and (X, Y, -Z): identical X and Y limbs, the second denotes -P
         jx = E.jac(A, z1).split(':')
         negz = ':'.join([jx[0], jx[1], H((P - z1) * E.R % P)])
@@ -514,6 +659,35 @@ def gen_c15(tier, rng):
         ida = rng.choice(['default', hx(b'alice123@qq.com')])
         idb = rng.choice(['default', hx(b'bob456@qq.com')])
         yield ('honest-klen', 'sm2_kex %s %s %s %s %d %s %s -' % (H(dA), H(dB), ida, idb, klen, good_k(rng), good_k(rng)), None)
+    # confirmation values REPLACED in transit by values that differ from the honest ones in many bits / whole bytes
+    # (a comparison that only notices small differences would accept): needs the honest S_B / S_A, computed independently
+    for _ in range(3 if tier == 'thorough' else 1):
+        dA, dB = rscalar(rng, 1, N - 1), rscalar(rng, 1, N - 1)
+        rA_, rB_ = int(good_k(rng), 16), int(good_k(rng), 16)
+        hon = py_kex(dA, dB, b'1234567812345678', b'1234567812345678', rA_, rB_)
+        if hon is None:
+            continue
+        sb_, sa_ = hon
+        pre = 'sm2_kexforge %s %s default default 16 %s %s' % (H(dA), H(dB), H(rA_), H(rB_))
+        yield ('forge-control-honest-value', pre + ' sb ' + sb_.hex(), 'OK accepted')
+        yield ('forge-control-honest-value', pre + ' sa ' + sa_.hex(), 'OK accepted')
+        for which, v in (('sb', sb_), ('sa', sa_)):
+            alts = [bytes(32), b'\xff' * 32, bytes(b ^ 0xff for b in v), bytes([v[0] ^ 0xff]) + v[1:], v[:31] + bytes([v[31] ^ 0x81]),
+                    bytes([v[0] ^ 0x80]) + v[1:], v[:5] + bytes([v[5] ^ 0xc3]) + v[6:], rb(rng, 32), v[1:] + v[:1]]
+            for a_ in alts:
+                if a_ != v:
+                    yield ('forge-' + which, pre + ' %s %s' % (which, a_.hex()), 'ERR')
+    # the shared point at infinity: t_B = d_B + x2~ r_B = 0 (mod n) for the responder, t_A = 0 for the initiator: the run must fail
+    xb_ = lambda x: (1 << 127) + (x & ((1 << 127) - 1))
+    for who in ('B', 'A'):
+        r_ = int(good_k(rng), 16)
+        dx = (-xb_(E.mul(r_, E.G)[0]) * r_) % N
+        other_d, other_r = rscalar(rng, 1, N - 1), good_k(rng)
+        if 1 <= dx <= N - 2:
+            if who == 'B':
+                yield ('shared-point-at-infinity', 'sm2_kex %s %s default default 16 %s %s -' % (H(other_d), H(dx), other_r, H(r_)), 'ERR')
+            else:
+                yield ('shared-point-at-infinity', 'sm2_kex %s %s default default 16 %s %s -' % (H(dx), H(other_d), H(r_), other_r), 'ERR')
     for ns in ([2, 4] if tier == 'thorough' else [3]):
         yield ('sessions-on-one-object-pair', 'sm2_kexseq %s %s default %s 24 %s %s' % (H(rscalar(rng, 1, N - 1)), H(rscalar(rng, 1, N - 1)), hx(b'bob'),
                ','.join(good_k(rng) for _ in range(ns)), ','.join(good_k(rng) for _ in range(ns))), None)
@@ -557,11 +731,16 @@ def gen_c19(tier, rng):
             found += 1
         Q = E.add(Q, E.G)
         k += 1
+    # private keys with leading zero nibbles / bytes / limbs (fixed-width encodings must keep them)
+    for sh in (4, 8, 12, 32, 64, 68, 128, 200):
+        keys.append(rng.getrandbits(256 - sh) | 1)
     for d in keys:
         Q = E.mul(d, E.G)
         for comp in (False, True):
             yield ('point-round-trip' + ('-leading-zero' if (Q[0] >> 248 == 0 or Q[1] >> 248 == 0) else ''), 'pk_new %s' % E.enc(Q, comp), None)
         yield ('sk-bytes', 'sk_new %s' % H(d), None)
+        yield ('hex-round-trip', 'sk_hex %s' % hx(H(d).encode()), None)
+        yield ('hex-round-trip', 'pk_hex %s' % hx(E.enc(Q, rng.random() < 0.5).encode()), None)
         yield ('doc-round-trip', 'sm2_spki_pem_rt %s %s' % (E.enc(Q), rng.choice(['lf', 'crlf'])), None)
         yield ('doc-round-trip', 'sm2_pkcs8_pem_rt %s %s' % (H(d), rng.choice(['lf', 'crlf'])), None)
         yield ('doc-encode', 'sm2_spki_enc %s' % E.enc(Q, rng.random() < 0.5), None)
@@ -609,6 +788,17 @@ def gen_c19(tier, rng):
         else:
             m[-64:] = bytes(64)
         yield ('doc-invalid-embedded-point', 'sm2_pkcs8_dec %s' % bytes(m).hex(), None)
+    dd_ = rscalar(rng, 1, N - 1)
+    pub_ = bytes.fromhex(E.enc(E.mul(dd_, E.G)))
+    for withpub in (True, False):
+        for ln in (0, 31, 33):
+            yield ('doc-private-key-size', 'sm2_pkcs8_dec %s' % p8_doc(rb(rng, ln), pub_ if withpub else None).hex(), None)
+        for v in (0, N - 1, N):
+            pv = bytes.fromhex(E.enc(E.mul(v % N, E.G))) if v % N else pub_
+            yield ('doc-private-key-range', 'sm2_pkcs8_dec %s' % p8_doc(v.to_bytes(32, 'big'), pv if withpub else None).hex(), 'ERR' if withpub else None)
+        yield ('doc-rebuilt-control', 'sm2_pkcs8_dec %s' % p8_doc(dd_.to_bytes(32, 'big'), pub_ if withpub else None).hex(), ('OK %s %s' % (H(dd_), pub_.hex())) if withpub else None)
+    # embedded public key that does not belong to the private key (another valid point)
+    yield ('doc-embedded-key-of-another-scalar', 'sm2_pkcs8_dec %s' % p8_doc(dd_.to_bytes(32, 'big'), bytes.fromhex(E.enc(E.mul(dd_ + 1, E.G)))).hex(), None)
     for ln in (0, 1, 26, 27, 90):
         yield ('doc-truncated', 'sm2_spki_dec %s' % hx(bytes.fromhex(spki_prefix + E.enc(Q))[:ln]), None)
         yield ('doc-truncated', 'sm2_pkcs8_dec %s' % hx(bytes.fromhex(kc['0'][3])[:ln]), None)
@@ -647,6 +837,86 @@ def gen_c19(tier, rng):
     for _ in range(3 if tier == 'thorough' else 1):
         for name, der_ in crafted_der_cts(rng):
             yield ('asn1-crafted-fields', 'sm2_dec_asn1 %s %s 0 c1c3c2' % (H(d), der_.hex()), None)
+    # shortest possible honest DER: 1-byte message, C1.x < 2^247 and C1.y with its top bit clear (INTEGERs of 31 / 32 bytes)
+    k_ = rscalar(rng, 1, N - 70000)
+    Q_ = E.mul(k_, E.G)
+    for _ in range(20000):
+        if Q_[0] >> 247 == 0 and Q_[1] >> 255 == 0:
+            break
+        k_ += 1
+        Q_ = E.add(Q_, E.G)
+    else:
+        k_ = None
+    if k_ is not None:
+        yield ('asn1-shortest-document', 'sm2_ed_asn1 %s 5a %s' % (H(d), H(k_)), 'OK 5a')
+        yield ('asn1-shortest-document', 'sm2_ed_asn1 %s %s %s' % (H(d), hx(rb(rng, 2)), H(k_)), None)
+    yield from asn1_c3_short_cases(rng, d, tier)
+
+
+def asn1_c3_short_cases(rng, d, tier):
+    """consistent ciphertext whose C3 begins with 00, its hash OCTET STRING re-encoded WITHOUT the leading zero (31 bytes):
+    not an SM3 digest, must be InvalidDer; control: the same ciphertext with the full 32-byte field decrypts"""
+    Ppk_ = E.mul(d, E.G)
+    for _ in range(2 if tier == 'thorough' else 1):
+        m_ = rb(rng, 9)
+        kk = rscalar(rng, 1, N - 70000)
+        for _t in range(5000):
+            C1_, c3_, c2_ = py_encrypt(Ppk_, m_, kk)
+            if c3_[0] == 0:
+                break
+            kk += 1
+        else:
+            continue
+        yield ('asn1-c3-leading-zero-control', 'sm2_dec_asn1 %s %s 0 c1c3c2' % (H(d), _der_ct(_der_int(C1_[0]), _der_int(C1_[1]), c3_, c2_).hex()), 'OK ' + m_.hex())
+        yield ('asn1-c3-31-bytes', 'sm2_dec_asn1 %s %s 0 c1c3c2' % (H(d), _der_ct(_der_int(C1_[0]), _der_int(C1_[1]), c3_[1:], c2_).hex()), 'ERR')
+
+
+def py_kdf(z, n):
+    from .sm9py import sm3 as _sm3
+    out, ct = b'', 1
+    while len(out) < n:
+        out += _sm3(z + ct.to_bytes(4, 'big')); ct += 1
+    return out[:n]
+
+
+def py_encrypt(Ppk, msg, k):
+    """GB/T 32918.4 encryption written independently (Python EC + SM3): (C1, C3, C2)"""
+    from .sm9py import sm3 as _sm3
+    C1 = E.mul(k, E.G)
+    x2, y2 = E.mul(k, Ppk)
+    t_ = py_kdf(x2.to_bytes(32, 'big') + y2.to_bytes(32, 'big'), len(msg))
+    return C1, _sm3(x2.to_bytes(32, 'big') + msg + y2.to_bytes(32, 'big')), bytes(a ^ b for a, b in zip(msg, t_))
+
+
+def p8_doc(dbytes, pub=None):
+    """PKCS#8 PrivateKeyInfo for SM2 around an RFC 5915 ECPrivateKey whose privateKey OCTET STRING holds `dbytes` (any length)
+    and, when `pub` (65 bytes) is given, the optional [1] publicKey BIT STRING"""
+    tlv = lambda tag, body: bytes([tag]) + _der_len(len(body)) + body
+    ec = tlv(0x02, b'\x01') + tlv(0x04, dbytes)
+    if pub is not None:
+        ec += tlv(0xa1, tlv(0x03, b'\x00' + pub))
+    alg = tlv(0x30, bytes.fromhex('06072a8648ce3d020106082a811ccf5501822d'))
+    return tlv(0x30, tlv(0x02, b'\x00') + alg + tlv(0x04, tlv(0x30, ec)))
+
+
+def py_kex(dA, dB, idA, idB, rA, rB):
+    """honest S_B, S_A of GB/T 32918.3 (w = 127, tags 02 / 03), written independently; None if a degenerate case occurs"""
+    from .sm9py import sm3 as _sm3
+    def za(idb, Pt):
+        entl = (len(idb) * 8).to_bytes(2, 'big')
+        return _sm3(entl + idb + E.a.to_bytes(32, 'big') + E.b.to_bytes(32, 'big') + E.G[0].to_bytes(32, 'big') + E.G[1].to_bytes(32, 'big')
+                    + Pt[0].to_bytes(32, 'big') + Pt[1].to_bytes(32, 'big'))
+    PA, PB = E.mul(dA, E.G), E.mul(dB, E.G)
+    RA, RB = E.mul(rA, E.G), E.mul(rB, E.G)
+    xb = lambda x: (1 << 127) + (x & ((1 << 127) - 1))
+    tB = (dB + xb(RB[0]) * rB) % N
+    V = E.mul(tB, E.add(PA, E.mul(xb(RA[0]), RA)))
+    if V is None:
+        return None
+    b32 = lambda v: v.to_bytes(32, 'big')
+    ZA, ZB = za(idA, PA), za(idB, PB)
+    inner = _sm3(b32(V[0]) + ZA + ZB + b32(RA[0]) + b32(RA[1]) + b32(RB[0]) + b32(RB[1]))
+    return _sm3(b'\x02' + b32(V[1]) + inner), _sm3(b'\x03' + b32(V[1]) + inner)
 
 
 def _der_len(n):
@@ -741,6 +1011,18 @@ def gen_c20_sm2(tier, rng):
         for mode in ('ctr', 'ofb', 'cfb', 'cbc'):
             for dirn in ('enc', 'dec'):
                 yield ('sm4-mode-counter-wrap', 'sm4mode %s %s %s %s %s' % (mode, dirn, hx(bytes(16)), iv_, hx(rb(rng, ln if dirn == 'enc' or mode != 'cbc' else (ln // 16) * 16))), None)
+    # PKCS#8 documents whose private-key OCTET STRING has the wrong size or an out-of-range value, with and without the optional
+    # embedded public key (the decoder must validate the scalar in both shapes)
+    dd_ = rscalar(rng, 1, N - 1)
+    pub_ = bytes.fromhex(E.enc(E.mul(dd_, E.G)))
+    for withpub in (True, False):
+        for ln in (0, 1, 8, 16, 31, 33, 40, 64):
+            yield ('sm2-pkcs8-private-key-size', 'sm2_pkcs8_dec %s' % p8_doc(rb(rng, ln), pub_ if withpub else None).hex(), None)
+        for v in (0, N - 1, N, N + 1, (1 << 256) - 1):
+            pv = bytes.fromhex(E.enc(E.mul(v % N, E.G))) if v % N else pub_
+            yield ('sm2-pkcs8-private-key-range', 'sm2_pkcs8_dec %s' % p8_doc(v.to_bytes(32, 'big'), pv if withpub else None).hex(), 'ERR' if withpub else None)
+        yield ('sm2-pkcs8-rebuilt-control', 'sm2_pkcs8_dec %s' % p8_doc(dd_.to_bytes(32, 'big'), pub_ if withpub else None).hex(),
+               ('OK %s %s' % (H(dd_), pub_.hex())) if withpub else None)
     yield ('terminates-empty-message-encrypt', 'sm2_enc %s - 0 c1c3c2 %s' % (pk, good_k(rng)), None)
     for _ in range(3 if tier == 'thorough' else 1):
         for name, der_ in crafted_der_cts(rng):
